@@ -22,12 +22,12 @@ EXTENDS Units, TLC
 
 CONSTANT YearSet     \* chains for these years (1..9999 = everything)
 
-VARIABLES dir,      \* "fwd" or "bwd"
-          f,        \* current day frame [n, y, m, d, wd, doy]
-          mark,     \* fwd: last[u] = latest start of u seen (or -1000000 if none)
-                    \* bwd: next[u] = earliest start of u strictly after f
-          head      \* the year whose chain this is (bounds the chain)
-vars == <<dir, f, mark, head>>
+VARIABLES wdir,      \* "fwd" or "bwd"
+          cur,        \* current day frame [n, y, m, d, wd, doy]
+          marks,     \* fwd: last[u] = latest start of u seen (or -1000000 if none)
+                    \* bwd: next[u] = earliest start of u strictly after cur
+          chainyear      \* the year whose chain this is (bounds the chain)
+vars == <<wdir, cur, marks, chainyear>>
 
 None == -1000000
 
@@ -37,26 +37,26 @@ SeedNext(g) == [u \in DayUnits |-> NextBDay(u, g)]
 
 Init ==
   \E yy \in YearSet :
-    \/ /\ dir = "fwd" /\ head = yy
-       /\ f = Frame(DaysFromCivil(yy, 1, 1))
-       /\ mark = SeedLast(f)
-    \/ /\ dir = "bwd" /\ head = yy
-       /\ f = Frame(DaysFromCivil(yy, 12, 31))
-       /\ mark = SeedNext(f)
+    \/ /\ wdir = "fwd" /\ chainyear = yy
+       /\ cur = Frame(DaysFromCivil(yy, 1, 1))
+       /\ marks = SeedLast(cur)
+    \/ /\ wdir = "bwd" /\ chainyear = yy
+       /\ cur = Frame(DaysFromCivil(yy, 12, 31))
+       /\ marks = SeedNext(cur)
 
-Fwd == /\ dir = "fwd"
-       /\ f.n < DateMax
-       /\ f.y = head                     \* runs through 1 January of head+1
-       /\ f' = NextFrame(f)
-       /\ mark' = [u \in DayUnits |-> IF IsStart(u, f') THEN f'.n ELSE mark[u]]
-       /\ UNCHANGED <<dir, head>>
+Fwd == /\ wdir = "fwd"
+       /\ cur.n < DateMax
+       /\ cur.y = chainyear                     \* runs through 1 January of chainyear+1
+       /\ cur' = NextFrame(cur)
+       /\ marks' = [u \in DayUnits |-> IF IsStart(u, cur') THEN cur'.n ELSE marks[u]]
+       /\ UNCHANGED <<wdir, chainyear>>
 
-Bwd == /\ dir = "bwd"
-       /\ f.n > DateMin
-       /\ f.y = head                     \* runs through 31 December of head-1
-       /\ f' = PrevFrame(f)
-       /\ mark' = [u \in DayUnits |-> IF IsStart(u, f) THEN f.n ELSE mark[u]]
-       /\ UNCHANGED <<dir, head>>
+Bwd == /\ wdir = "bwd"
+       /\ cur.n > DateMin
+       /\ cur.y = chainyear                     \* runs through 31 December of chainyear-1
+       /\ cur' = PrevFrame(cur)
+       /\ marks' = [u \in DayUnits |-> IF IsStart(u, cur) THEN cur.n ELSE marks[u]]
+       /\ UNCHANGED <<wdir, chainyear>>
 
 Next == Fwd \/ Bwd
 Spec == Init /\ [][Next]_vars
@@ -64,52 +64,52 @@ Spec == Init /\ [][Next]_vars
 (* ------------------------------ invariants ------------------------------ *)
 \* C01: the closed forms are the walker
 ClosedFormsAgree ==
-  /\ CivilFromDays(f.n) = <<f.y, f.m, f.d, f.doy>>
-  /\ DaysFromCivil(f.y, f.m, f.d) = f.n
-  /\ Dow(f.n) = f.wd
-  /\ DayOfYear(f.y, f.m, f.d) = f.doy
-  /\ MonthDayOfDoy(f.y, f.doy) = <<f.m, f.d>>
-  /\ YmdVerdict(f.y, f.m, f.d) = 0
-  /\ InDateRange(f.n)
-  /\ f.y \in MinYear..MaxYear
+  /\ CivilFromDays(cur.n) = <<cur.y, cur.m, cur.d, cur.doy>>
+  /\ DaysFromCivil(cur.y, cur.m, cur.d) = cur.n
+  /\ Dow(cur.n) = cur.wd
+  /\ DayOfYear(cur.y, cur.m, cur.d) = cur.doy
+  /\ MonthDayOfDoy(cur.y, cur.doy) = <<cur.m, cur.d>>
+  /\ YmdVerdict(cur.y, cur.m, cur.d) = 0
+  /\ InDateRange(cur.n)
+  /\ cur.y \in MinYear..MaxYear
 
-EpochIsThursday == f.n = 0 => (f.y = 1970 /\ f.m = 1 /\ f.d = 1 /\ f.wd = 5)
-RangeEnds == /\ f.n = DateMin => <<f.y, f.m, f.d>> = <<1, 1, 1>>
-             /\ f.n = DateMax => <<f.y, f.m, f.d>> = <<9999, 12, 31>>
-             /\ <<f.y, f.m, f.d>> = <<1, 1, 1>> => f.n = DateMin
-             /\ <<f.y, f.m, f.d>> = <<9999, 12, 31>> => f.n = DateMax
+EpochIsThursday == cur.n = 0 => (cur.y = 1970 /\ cur.m = 1 /\ cur.d = 1 /\ cur.wd = 5)
+RangeEnds == /\ cur.n = DateMin => <<cur.y, cur.m, cur.d>> = <<1, 1, 1>>
+             /\ cur.n = DateMax => <<cur.y, cur.m, cur.d>> = <<9999, 12, 31>>
+             /\ <<cur.y, cur.m, cur.d>> = <<1, 1, 1>> => cur.n = DateMin
+             /\ <<cur.y, cur.m, cur.d>> = <<9999, 12, 31>> => cur.n = DateMax
 
 \* C10: closed-form truncation = latest start seen by the forward walker
 TruncIsLastStart ==
-  dir = "fwd" => \A u \in DayUnits :
-     IF mark[u] = None THEN TruncDay(u, f) < DateMin
-     ELSE TruncDay(u, f) = mark[u]
+  wdir = "fwd" => \A u \in DayUnits :
+     IF marks[u] = None THEN TruncDay(u, cur) < DateMin
+     ELSE TruncDay(u, cur) = marks[u]
 
 \* C11: closed-form next boundary = earliest start ahead seen by the backward walker
 NextBIsNextStart ==
-  dir = "bwd" => \A u \in DayUnits : NextBDay(u, f) = mark[u]
+  wdir = "bwd" => \A u \in DayUnits : NextBDay(u, cur) = marks[u]
 
 \* derived facts the properties state (checked on the spec itself)
 TruncFacts ==
-  dir = "fwd" => \A u \in DayUnits :
-     /\ TruncDay(u, f) <= f.n                         \* never moves forward
-     /\ f.n < NextBDay(u, f)
-     /\ (TruncDay(u, f) = f.n) = IsStart(u, f)        \* on a boundary iff a start
-     /\ TruncDay(u, f) >= DateMin =>                  \* idempotent
-          TruncDay(u, Frame(TruncDay(u, f))) = TruncDay(u, f)
+  wdir = "fwd" => \A u \in DayUnits :
+     /\ TruncDay(u, cur) <= cur.n                         \* never moves forward
+     /\ cur.n < NextBDay(u, cur)
+     /\ (TruncDay(u, cur) = cur.n) = IsStart(u, cur)        \* on a boundary iff a start
+     /\ TruncDay(u, cur) >= DateMin =>                  \* idempotent
+          TruncDay(u, Frame(TruncDay(u, cur))) = TruncDay(u, cur)
 RoundFacts ==
-  dir = "fwd" => \A u \in DayUnits : \A h \in {0, 12} :
-     /\ RoundDays(u, f, h, IsStart(u, f) /\ h = 0) \subseteq {TruncDay(u, f), NextBDay(u, f)}
-     /\ (IsStart(u, f) /\ h = 0) => RoundDays(u, f, h, TRUE) = {f.n}
+  wdir = "fwd" => \A u \in DayUnits : \A h \in {0, 12} :
+     /\ RoundDays(u, cur, h, IsStart(u, cur) /\ h = 0) \subseteq {TruncDay(u, cur), NextBDay(u, cur)}
+     /\ (IsStart(u, cur) /\ h = 0) => RoundDays(u, cur, h, TRUE) = {cur.n}
 IsoYearFacts ==
-  dir = "fwd" =>
-  /\ IsoYearStart(IsoYearOf(f.n)) <= f.n
-  /\ f.n < IsoYearStart(IsoYearOf(f.n) + 1)
-  /\ Dow(IsoYearStart(f.y)) = 2
+  wdir = "fwd" =>
+  /\ IsoYearStart(IsoYearOf(cur.n)) <= cur.n
+  /\ cur.n < IsoYearStart(IsoYearOf(cur.n) + 1)
+  /\ Dow(IsoYearStart(cur.y)) = 2
 
 \* the only dates whose truncation does not exist: Sunday week of 0001-01-01..06
 TruncFailsOnlyThere ==
-  \A u \in DayUnits : TruncDay(u, f) < DateMin => (u = "sunweek" /\ f.y = 1 /\ f.m = 1 /\ f.d <= 6)
+  \A u \in DayUnits : TruncDay(u, cur) < DateMin => (u = "sunweek" /\ cur.y = 1 /\ cur.m = 1 /\ cur.d <= 6)
 
 \* anchors of the induction
 ASSUME LET g == Frame(DateMin) IN
